@@ -97,6 +97,8 @@ def make_fn(failpath, names, mode, version=1, exc_kind="value", np_check=False, 
             return float(tok)
         if mode == "xy":
             return float(tok), float(2 * tok)
+        if mode == "xs":
+            return float(tok), "t%d" % tok
         if mode in ("xv", "xvt"):
             import numpy as _np
             return float(tok), _np.array([float(tok), tok + 0.5])
@@ -133,6 +135,8 @@ class World(object):
             self.mode = variant.get("fmode", "xy") if variant.get("fmode") in ("scalar", "xy") else "xy"
         else:
             self.mode = variant.get("fmode", "xy")
+            if self.mode == "xs" and self.farmer_kind != "runner":
+                self.mode = "xy"       # (a str variable next to missing values cannot be written by the netCDF engines)
         self.tok_of = {}
         self.id_of_tok = {}
         for i, loc in enumerate(case["settings"]):
@@ -208,6 +212,8 @@ class World(object):
             names, dims = ["x"], None
         elif mode == "xy":
             names, dims = ["x", "y"], None
+        elif mode == "xs":
+            names, dims = ["x", "s"], None
         else:
             names, dims = ["x", "v"], {"v": ["t"]}
         if broken:
@@ -540,6 +546,13 @@ def check_value(w, res, want, to_df=False):
             y = float(sel["y"].values)
             if not ((math.isnan(y) and want[k] == 0) or y == 2 * x):
                 return "ds.sel(%r)['y'] = %r inconsistent" % (loc, y)
+        if w.mode == "xs":
+            sv = sel["s"].values.item() if hasattr(sel["s"].values, "item") else sel["s"].values
+            null = sv is None or (isinstance(sv, float) and math.isnan(sv))
+            if want[k] == 0 and not null:
+                return "ds.sel(%r)['s'] = %r where nothing was grown: a missing str result must be null" % (loc, sv)
+            if want[k] != 0 and sv != "t%d" % int(x):
+                return "ds.sel(%r)['s'] = %r inconsistent with x = %r" % (loc, sv, x)
         if w.mode in ("xv", "xvt"):
             v = np.asarray(sel["v"].values, dtype=float)
             if v.shape != (2,) or not ((np.isnan(v).all() and want[k] == 0) or (v[0] == x and v[1] == x + 0.5)):
@@ -1038,7 +1051,7 @@ def default_variants(case, idx):
     if cfg["farmer"] == "none":
         v["result"] = ["scalar", "xy", "array", "str", "bool"][k % 5]
     else:
-        v["fmode"] = ["xy", "scalar", "xv"][k % 3]
+        v["fmode"] = ["xy", "scalar", "xv", "xs", "xy", "xv"][k % 6]
         v["engine"] = ["joblib", "h5netcdf"][k % 4 == 1]
         v["ext"] = (k % 3 != 2)
         v["df_engine"] = ["pickle", "csv"][k % 2]
